@@ -514,10 +514,12 @@ Definition interp_prov (p : pbeh) (g : nat) (q : Z) (prev : list Z) : presp :=
   end.
 
 (* plain completion: response id derived from what the prompt carried *)
-Inductive cbeh := CAff (a : Z) | CRaise | CRaiseFinal.
+Inductive cbeh := CAff (a : Z) | CRaise | CRaiseFinal
+| CConst (c : Z).   (* the same answer whatever the prompt (MockProvider's default response) *)
 Definition interp_complete (c : cbeh) (q : Z) (final : bool) (prev : list Z) : option Z :=
   match c with
   | CAff a => Some (a + (if final then 1 else 0) + 2 * fold_right Z.add 0 prev + 7 * q)
+  | CConst c => Some c
   | CRaise => None
   | CRaiseFinal => if final then None else Some 0
   end.
@@ -572,7 +574,14 @@ Inductive case :=
 | CSwarm (fac : list bool) (beh : list (list wstep)) (dflt : wstep) (thr : Q)
          (max_regenerations max_steps : Z)
 | CTool (p : pbeh) (c : cbeh) (tools : list tkind) (has_method : bool) (max_depth : nat)
-        (calls : list (Z * bool)).   (* consecutive calls on one nucleus: (max_iterations, auto_execute) *)
+        (calls : list (Z * bool))    (* consecutive calls on one nucleus: (max_iterations, auto_execute) *)
+(* n consecutive heal() calls on ONE ChaperoneLoop / chaperone / generator: the loop keeps no state, the
+   generator goes on counting its own invocations (call i of a later heal() is invocation k0 + i) *)
+| CHealSeq (g : gbeh) (v : list (Z * vres)) (decay : Q) (max_retries : Z) (ncalls : nat)
+(* n consecutive supervise() calls on ONE RegenerativeSwarm: _worker_counter is cumulative, so a later
+   call names (and the factory sees) workers w0, w0+1, ... where w0 = factory invocations so far *)
+| CSwarmSeq (fac : list bool) (beh : list (list wstep)) (dflt : wstep) (thr : Q)
+            (max_regenerations max_steps : Z) (ncalls : nat).
 
 Definition b2z (b : bool) : Z := if b then 1 else 0.
 Definition n2z (n : nat) : Z := Z.of_nat n.
@@ -643,6 +652,33 @@ Definition obs_tool (r : list tcall * list Z) : list (list Z) :=
 
 Definition nest_fuel : nat := 8.
 
+(* consecutive calls on one object; every call is the single-call model run against the environment as
+   the earlier calls left it (shifted invocation / worker indices) *)
+Fixpoint heal_runs (gen : nat -> option ctx -> gen_out) (validate : Z -> vres) (decay : Q) (mr : Z)
+                   (n k0 : nat) : list heal_result :=
+  match n with
+  | O => []
+  | S n' =>
+      let r := heal (fun k ec => gen (k0 + k)%nat ec) validate decay mr in
+      r :: heal_runs gen validate decay mr n' (k0 + length (h_calls r))%nat
+  end.
+
+Fixpoint swarm_runs (factory_ok : nat -> bool) (beh : nat -> nat -> wstep) (thr : Q) (mg ms : Z)
+                    (n w0 : nat) : list swarm_result :=
+  match n with
+  | O => []
+  | S n' =>
+      let r := supervise (fun w => factory_ok (w0 + w)%nat) (fun w j => beh (w0 + w)%nat j) thr mg ms in
+      r :: swarm_runs factory_ok beh thr mg ms n' (w0 + length (s_workers r))%nat
+  end.
+
+(* observations of every call, one after the other; indices are relative to the call *)
+Definition heal_seq (g : gbeh) (v : list (Z * vres)) (decay : Q) (mr : Z) (n : nat) : list (list Z) :=
+  flat_map obs_heal (heal_runs (interp_gen g) (interp_val v) decay mr n 0).
+Definition swarm_seq (fac : list bool) (beh : list (list wstep)) (d : wstep) (thr : Q) (mg ms : Z)
+                     (n : nat) : list (list Z) :=
+  flat_map obs_swarm (swarm_runs (interp_fac fac) (interp_beh beh d) thr mg ms n 0).
+
 Definition run_case (c : case) : list (list Z) :=
   match c with
   | CHeal g v decay mr => obs_heal (heal (interp_gen g) (interp_val v) decay mr)
@@ -653,4 +689,6 @@ Definition run_case (c : case) : list (list Z) :=
                   (interp_tool_pre tools md) (interp_tool_post tools)
                   (match tools with [] => false | _ => true end) hm
                   nest_fuel (0%nat, 0%nat) [] 0 calls)
+  | CHealSeq g v decay mr n => heal_seq g v decay mr n
+  | CSwarmSeq fac beh d thr mg ms n => swarm_seq fac beh d thr mg ms n
   end.
